@@ -240,6 +240,35 @@ def _replay_prefix(v):
 
 BOUNDED_REPLAY = {"is_prefix_operation_reference": _replay_prefix}
 
+# ------------------------------------------------------------------------------------------------- recorder lookups used by the lifecycle checks
+REC_ = "schemathesis.engine.recorder:"
+Node = lambda: Obj(REC_ + "CaseNode", value=Opq("CaseRef"), parent_id=OneOf(NoneT, Str), transition=NoneT)
+RecObj = lambda: Obj(REC_ + "ScenarioRecorder", cases=KeyedDict(Str, Node(), sizes=(0, 1, 2)),
+                     interactions=KeyedDict(Str, Obj(REC_ + "Interaction", request=Opq("Request"), response=OneOf(NoneT, Opq("ResponseRef"))), sizes=(0, 1, 2)))
+R.contract(
+    REC_ + "ScenarioRecorder.find_parent",
+    prop="C18",
+    args={"self": RecObj(), "case_id": Str},
+    requires=["all(self.cases[k].parent_id is None or self.cases[k].parent_id in self.cases for k in self.cases)  # the recorder is consistent: every parent was recorded"],
+    raises=[],
+    ensures={
+        "parent_is_the_case_recorded_under_the_parent_id": "implies(case_id in self.cases, implies(self.cases[case_id].parent_id is not None, result is self.cases[self.cases[case_id].parent_id].value))",
+        "no_parent_no_result": "implies(case_id not in self.cases, result is None) and implies(case_id in self.cases, implies(self.cases[case_id].parent_id is None, result is None))",
+    },
+    bounded_note="recorders with up to 2 cases",
+)
+R.contract(
+    REC_ + "ScenarioRecorder.find_response",
+    prop="C18",
+    args={"self": RecObj(), "case_id": Str},
+    raises=[],
+    ensures={
+        "the_response_of_this_very_case": "implies(case_id in self.interactions, result is self.interactions[case_id].response)",
+        "unknown_case_has_no_response": "implies(case_id not in self.interactions, result is None)",
+    },
+    bounded_note="recorders with up to 2 interactions",
+)
+
 LEVEL_TEXT = ("Deductive for the two checks' trigger conditions (loop invariants, histories of any length, the DELETE's own response as the property demands); "
               "the path-prefix relation and the tree walk of the recorder are covered by exhaustive bounded stand-ins, hence level other.")
 LEVEL_NOTE = "Trusted: CheckContext.find_* (recorder walk checked by stand-in), message formatting helpers, pyvc semantics (E9)."
